@@ -7,6 +7,7 @@ CONSTANTS
   MaxIvl = 1600
   MaxSend = 7
   FineTime = TRUE
+  SlowWrites = FALSE
   FailAts = {0, 1, 2, 7}
   MaxDepth = 5
 CONSTRAINT DepthBound
